@@ -177,6 +177,11 @@ def assign (v : Val) (t : Nat) : Val :=
   else if t ≥ nillableMin then .int t 0
   else .int tNil 0
 
+/-- `reassign(t)`: `assign` for a slot whose type is known only from the value it holds (a variable, a struct
+    field - the slot may be an `any`): a float64 stays a float64 there -/
+def reassign (v : Val) (t : Nat) : Val :=
+  if v.tag = tF64 then v else assign v t
+
 /-- `convert(t)` for the numeric targets -/
 def convert (v : Val) (t : Nat) : Option Val :=
   if t = tU8 then some (.int t (wrapU 8 v.toInt))
